@@ -35,6 +35,34 @@ class _Comm:
         raise RuntimeError("MPI abort")
 
 
+def _chunk_bounds(name_to_call, args):
+    """(start_i, end_i, N) of a submitted chunk job, read from the arguments by the parameter NAMES of the
+    function that is called (-1 where the job has no such parameter)."""
+    import inspect
+    try:
+        import pyunicorn
+        import pyunicorn.core.network as nw
+        obj = None
+        for root in (nw, pyunicorn):
+            try:
+                obj = root
+                for part in str(name_to_call).split("."):
+                    obj = getattr(obj, part)
+                break
+            except AttributeError:
+                obj = None
+        try:
+            names = list(inspect.signature(obj).parameters)
+        except (TypeError, ValueError):
+            # compiled kernels carry their signature in the first line of the docstring
+            head = (obj.__doc__ or "").split(")")[0]
+            names = [a.strip().split(" ")[-1] for a in head.split("(", 1)[1].split(",")]
+        bound = dict(zip(names, args))
+        return tuple(int(bound[k]) if k in bound else -1 for k in ("start_i", "end_i", "N"))
+    except Exception:
+        return (-1, -1, -1)
+
+
 class World:
     def __init__(self, nworkers, schedule=()):
         import pyunicorn.utils.mpi as real
@@ -88,8 +116,9 @@ class World:
             rid = real_submit(name_to_call, args, kwargs, module, time_est, id, slave)
             s = int(m.assigned[rid])
             world.pending[s].append(rid)
+            lo, hi, ntot = _chunk_bounds(name_to_call, args)
             world.events.append({"ev": "submit", "id": int(rid), "slave": s,
-                                 "te": int(round(float(time_est)))})
+                                 "te": int(round(float(time_est))), "lo": lo, "hi": hi, "N": ntot})
             return rid
 
         def get_result(id):
